@@ -22,11 +22,13 @@ import (
 
 func init() { cmds["tree"] = treeMain }
 
+var vtokFull = false // full hex instead of digests (small inline buckets, so that the model can rebuild the stored value)
+
 func vtok(v []byte) string {
 	if len(v) == 0 {
 		return "-"
 	}
-	if len(v) <= 16 {
+	if len(v) <= 16 || vtokFull {
 		return hex.EncodeToString(v)
 	}
 	h := md5.Sum(v)
@@ -130,7 +132,17 @@ func treeMain(args []string) error {
 		}
 		b := tx.Bucket([]byte("b"))
 		b.FillPercent = float64(fill) / 100
-		switch cr.intn(5) {
+		seq := b.Sequence()
+		if cr.chance(1, 2) {
+			seq = cr.next() >> uint(cr.intn(60))
+			_ = b.SetSequence(seq)
+		}
+		switch cr.intn(6) {
+		case 5: // bulk growth with fresh keys between and behind the old ones: root splits, new levels
+			for n := 0; n < 50+cr.intn(600); n++ {
+				k := []byte(fmt.Sprintf("%0*d", klen, cr.intn(nk*7+300)))
+				_ = b.Put(k, val())
+			}
 		case 0: // delete runs that empty whole leaves
 			for r := 0; r < 1+cr.intn(4); r++ {
 				lo := cr.intn(nk)
@@ -205,12 +217,31 @@ func treeMain(args []string) error {
 		}
 		sb.Reset()
 		inline := false
+		bval := ""
 		_ = db.View(func(rtx *bolt.Tx) error {
 			rb := rtx.Bucket([]byte("b"))
 			if rb.RootPage() == 0 {
 				inline = true
 			}
+			vtokFull = inline
 			renderTree(&sb, bolt.VerifDumpNodeTree(rb))
+			vtokFull = false
+			// the value the parent (root bucket) stores for "b": bucket header (+ the inline page)
+			if root := rtx.Cursor().Bucket(); root != nil {
+				var find func(t *bolt.VerifNodeTree)
+				find = func(t *bolt.VerifNodeTree) {
+					for i, in := range t.Inodes {
+						if t.Leaf {
+							if string(in.Key) == "b" && in.Flags&1 != 0 {
+								bval = hex.EncodeToString(in.Value)
+							}
+						} else {
+							find(t.Kids[i])
+						}
+					}
+				}
+				find(bolt.VerifDumpNodeTree(root))
+			}
 			return nil
 		})
 		db.Close()
@@ -219,7 +250,7 @@ func treeMain(args []string) error {
 		if inline {
 			il = 1
 		}
-		fmt.Fprintf(w, "case %d ps=%d fill=%d inline=%d\npre %s\norder %s\nfl %s\npost %s\nend\n", ci, ps, fill, il, pre, csv(order), strings.Join(fl, " "), sb.String())
+		fmt.Fprintf(w, "case %d ps=%d fill=%d inline=%d seq=%d\npre %s\norder %s\nfl %s\npost %s\nbval %s\nend\n", ci, ps, fill, il, seq, pre, csv(order), strings.Join(fl, " "), sb.String(), bval)
 	}
 	return nil
 }
